@@ -376,7 +376,7 @@ def check_artifact(tv, art, funcs, report, drift):
         hd = art["header"]["decls"]
         for n in want:
             if hd.count(n) != 1 or art["header"]["companions"].get(n, 0) != 7:
-                report(f"{s}/header/missing:{n}", f"{tv['file']}.h declares '{n}' {hd.count(n)} times "
+                report(f"{s}/header/{'duplicated' if hd.count(n) > 1 else 'missing'}:{n}", f"{tv['file']}.h declares '{n}' {hd.count(n)} times "
                        f"({art['header']['companions'].get(n, 0)}/7 companion declarations)", data)
         for n in dict.fromkeys(hd):
             if n not in want:
@@ -495,7 +495,7 @@ def row_task(task):
                 G["info"][sets[0]]["call"](d, **opts)
         except Exception as ex:     # noqa
             res["ok"] = False
-            res["error"] = f"{type(ex).__name__}: {str(ex).strip().splitlines()[-1][-300:]}"
+            res["error"] = f"{type(ex).__name__}: {(str(ex).strip().splitlines() or [''])[-1][-300:]}"
             return res
         for s in sets:
             stem = SPEC_FILE[s]
